@@ -297,8 +297,11 @@ package parser
 // no exponent - that the regular expression lets through is accepted, whether the digits stand before the ".", after it,
 // or both (0xA.8, 0xA., 0x.8). Only the regular expression (outside the model) may reject such a literal.
 //@ spec hexd(c int) bool = (c >= 48 && c <= 57) || (c >= 97 && c <= 102)
-//@ spec hexMantissa(s string) bool = len(s) >= 1 && forall(k, 0, len(s), hexd(s[k]) || s[k] == 46)
-//@      && forall(i, 0, len(s), forall(j, i + 1, len(s), !(s[i] == 46 && s[j] == 46))) && exists(k, 0, len(s), hexd(s[k]))
+// "at most one dot" is stated through an uninterpreted position dotpos(s): every dot of s stands at dotpos(s). The
+// contract is proved for every interpretation of dotpos, hence for every s with at most one dot.
+//@ rec dotpos(s string) int
+//@ spec hexMantissa(s string) bool = len(s) >= 1 && forall(k, 0, len(s), hexd(s[k]) || (s[k] == 46 && k == dotpos(s)))
+//@      && exists(k, 0, len(s), hexd(s[k]))
 //@ func parseHexFloat
 //@   sweep C01
 //@   props C03
